@@ -23,6 +23,8 @@ static void gen_c02(Draw &d, Case &c) {
   c.p = {n, p, scaling, npc, partner};
   if (partner == 0) { for (int i = n - 1; i > 0; i--) c.p.push_back(d.i(0, i)); }
   else if (partner == 1) { for (int j = p - 1; j > 0; j--) c.p.push_back(d.i(0, j)); }
+  // processor count seen by the threaded kernels inside PCA (hook H1): the principal axes may not depend on it
+  { int r10 = (int)d.i(0, 9); int np = r10 < 6 ? 1 : r10 < 8 ? 2 : 3; c.p.push_back(np); c.tags.push_back(fmt("nproc=%d", np)); }
   put(c, X);
   if (partner == 2) put(c, gen_orthonormal(d, p, p));
   // classification on the oracle spectrum of the preprocessed matrix
@@ -43,8 +45,9 @@ static void gen_c02(Draw &d, Case &c) {
 }
 
 struct Fit { M T, P; V ve; };
+static size_t g_nproc = 1;
 static Fit fit(const M &X, int scaling, int npc) {
-  libsci_verif_nproc = 1;
+  libsci_verif_nproc = g_nproc;
   matrix *mx = to_lib(X); PCAMODEL *m; NewPCAModel(&m);
   PCA(mx, scaling, (size_t)npc, m, NULL);
   Fit f; f.T = from_lib(m->scores); f.P = from_lib(m->loadings); f.ve = from_lib(m->varexp);
@@ -58,6 +61,7 @@ static void pred_c02(const Case &c) {
   std::vector<int> perm;
   if (partner == 0) { perm.resize(n); for (int i = 0; i < n; i++) perm[i] = i; for (int i = n - 1; i > 0; i--) std::swap(perm[i], perm[(int)rd.i()]); }
   if (partner == 1) { perm.resize(p); for (int j = 0; j < p; j++) perm[j] = j; for (int j = p - 1; j > 0; j--) std::swap(perm[j], perm[(int)rd.i()]); }
+  { size_t expected = 5 + (partner == 0 ? (size_t)(n - 1) : partner == 1 ? (size_t)(p - 1) : 0); g_nproc = c.p.size() > expected ? (size_t)rd.i() : 1; if (g_nproc < 1 || g_nproc > 64) g_nproc = 1; }
   M X = rd.mat(n, p);
   M Q; if (partner == 2) Q = rd.mat(p, p);
   Prep Pr = ref_preprocess(X, scaling);
